@@ -10,7 +10,7 @@ func init() {
 	register(&propInfo{
 		ID:          "C04",
 		Run:         runC04,
-		MinObl:      14,
+		MinObl:      16,
 		Explanation: "Decided: R1 in the refresh-issue function RotateRefreshToken precedes both session creates, its error is tested, all three run in one open transaction with the transaction context, rotate's arguments are (GetID(request), signature of the presented refresh token) and the new sessions are stored under the id of the refreshed grant; R2 in the refresh-validate function every path under errors.Is(lookupErr, ErrInactiveToken) is a fail exit, the ErrInvalidGrant exit is reached only after RevokeRefreshToken and RevokeAccessToken ran with GetID(stored), and the only revoke error tolerated before continuing is ErrNotFound; R3 success requires a nil lookup error with the inactive test evaluated false, ValidateRefreshToken nil for the looked-up string, and SetID(GetID(stored)); R4 reference store: inactive lookup returns request+ErrInactiveToken, RevokeRefreshToken deactivates without deleting, RotateRefreshToken reaches both revokes with its requestID, only CreateRefreshTokenSession marks a record active; R5 isolation: every id passed to Revoke*/Rotate* from the refresh, revocation and code-replay paths is GetID of a stored request or of the request in an issue-phase function. The reuse branch carries on after a Revoke/Delete call only with that call's result known nil or known to be ErrNotFound (a guard that tests another variable does not count). NOT decided: chain-depth semantics over histories, other stores, concurrent refreshes (C19).",
 	})
 }
